@@ -419,8 +419,8 @@ M('c10-invert-and', 'C10', 'matching.py',
 
 # --------------------------------------------------------------------------- C11
 M('c11-write-first', 'C11', 'mutation.py',
-  "            remaining_path = self._orig_path[pae.part_idx + 1:]\n            val = scope[glom](self.missing(), Assign(remaining_path, Val(val), missing=self.missing), scope)\n\n            op, arg = self._orig_path.items()[pae.part_idx]\n            path = self._orig_path[:pae.part_idx]\n            dest = scope[glom](dest_target, path, scope)",
-  "            op, arg = self._orig_path.items()[pae.part_idx]\n            path = self._orig_path[:pae.part_idx]\n            dest = scope[glom](dest_target, path, scope)\n            _assign_op(dest=dest, op=op, arg=arg, val=self.missing(), path=path, scope=scope)\n            remaining_path = self._orig_path[pae.part_idx + 1:]\n            val = scope[glom](self.missing(), Assign(remaining_path, Val(val), missing=self.missing), scope)",
+  "            remaining_path = self._orig_path[pae.part_idx + 1:].from_t()\n            val = scope[glom](self.missing(), Assign(remaining_path, Val(val), missing=self.missing), scope)\n\n            op, arg = self._orig_path.items()[pae.part_idx]\n            path = self._orig_path[:pae.part_idx]\n            dest = scope[glom](dest_target, path, scope)",
+  "            op, arg = self._orig_path.items()[pae.part_idx]\n            path = self._orig_path[:pae.part_idx]\n            dest = scope[glom](dest_target, path, scope)\n            _assign_op(dest=dest, op=op, arg=arg, val=self.missing(), path=path, scope=scope)\n            remaining_path = self._orig_path[pae.part_idx + 1:].from_t()\n            val = scope[glom](self.missing(), Assign(remaining_path, Val(val), missing=self.missing), scope)",
   "the missing container is attached before its tail is built")
 M('c11-tail-in-target', 'C11', 'mutation.py',
   "            val = scope[glom](self.missing(), Assign(remaining_path, Val(val), missing=self.missing), scope)",
@@ -840,6 +840,18 @@ M('c11-revert-backfill-literal', ['C11'], 'mutation.py',
   "Assign(remaining_path, Val(val), missing=self.missing)",
   "Assign(remaining_path, val, missing=self.missing)",
   "revert of the repair: the back-fill evaluates the value a second time")
+M('c11-revert-backfill-s-rooted-tail', ['C11'], 'mutation.py',
+  "remaining_path = self._orig_path[pae.part_idx + 1:].from_t()",
+  "remaining_path = self._orig_path[pae.part_idx + 1:]",
+  "revert of the repair: the tail of an S-rooted destination is written into the scope, the new container stays empty")
+M('c07-vars-base-defaults-swapped', ['C07'], 'core.py',
+  "return ScopeVars(self.base, self.defaults)",
+  "return ScopeVars(self.defaults, self.base)",
+  "the base mapping is applied on top of the explicit defaults")
+M('c04-revert-iterate-message-path', ['C04'], 'core.py',
+  "% (target.__class__.__name__, scope[Path], e))",
+  "% (target.__class__.__name__, Path(*scope[Path]), e))",
+  "revert of the repair: the 'failed to iterate' message splices the recorded steps through Path(), which raises for S-/A-rooted ones")
 M('c10-revert-check-default-raw', ['C10'], 'matching.py',
   "                        if self.default is not RAISE:\n                            return arg_val(target, self.default, scope)",
   "                        if self.default is not RAISE:\n                            return self.default",
